@@ -1218,7 +1218,7 @@ def campaign_reuse(ck: Check, n_cases: int) -> None:
     rng = ck.rng.fork("reuse")
     at(ck, camp)
     fn = realcall.resolve(ck, camp, _real().pbase.Parser, "_Parser__reuse_model", "Parser.__reuse_model")
-    cases = [g for g, _ in POST_CORPUS if not any(n.get("root") for n in g)]
+    cases = [g for g, *_ in POST_CORPUS if not any(n.get("root") for n in g)]
     for _ in range(n_cases):
         cases.append(clean(random_graph(rng, 5)) if rng.chance(1, 6) else post_graph(rng, False))
     reqs, keep = [], []
@@ -1272,7 +1272,7 @@ def campaign_e2e_post(ck: Check, n_graphs: int) -> None:
     t0 = time.time()
     rng = ck.rng.fork("e2e-post")
     obs = []
-    cases = [(g, kind, opts) for g, opts in POST_CORPUS for kind in E2E_KINDS]
+    cases = [(g, kind, opts) for g, opts, *kinds in POST_CORPUS for kind in (kinds[0] if kinds else E2E_KINDS)]
     for i in range(n_graphs):
         roots = rng.chance(1, 3)
         g = post_graph(rng, roots)
@@ -1294,6 +1294,16 @@ POST_CORPUS = [
     ([node(2, (), (0,)), node(1, (), (2,), mark=0), node(0, (), (2,))], {"reuse_model": True}),
     ([node(0, (), (0,)), node(1, (), (0,), mark=0)], {"reuse_model": True}),
     ([node(0, (), (2,)), node(1, (), (0,), root=True), node(2, (), (1,))], {"collapse_root_models": True}),
+    # former witness of C11-reuse-collapse-root (repaired: __collapse_root_models keeps a root model that is still the base class of the
+    # `class M2(M1): pass` written by __reuse_model): two identical root (array) definitions, both / one of them used, under both options
+    # (and with --keep-model-order on top): M1 is written, before M2, and the module imports
+    ([node(0, (), (1, 2)), node(1, (), (3,), root=True), node(2, (), (3,), root=True), node(3)], {"reuse_model": True, "collapse_root_models": True}),
+    # (an unused root definition stays in the module; in dataclass output it is an eagerly evaluated alias, which the oracle does not model)
+    ([node(0, (), (1,)), node(1, (), (3,), root=True), node(2, (), (3,), root=True), node(3)], {"reuse_model": True, "collapse_root_models": True},
+     ["pydantic_v2.BaseModel", "pydantic.BaseModel"]),
+    ([node(3), node(2, (), (3,), root=True), node(1, (), (3,), root=True), node(0, (), (2, 1))], {"reuse_model": True, "collapse_root_models": True}),
+    ([node(4, (), (1, 2)), node(1, (), (0,), root=True), node(2, (), (0,), root=True), node(0)],
+     {"reuse_model": True, "collapse_root_models": True, "keep_model_order": True}),
 ]
 
 
